@@ -21,7 +21,8 @@
   is an extraction failure, not an act.
 
   The model of a body is a small structured language (literal, read site, sum,
-  branch on a run-time condition, loop running a run-time number of times):
+  branch on a run-time condition, loop running a run-time number of times,
+  `return`):
   enough to have read sites that are executed conditionally and read sites that
   lie on a path around them.  Temporaries that were never assigned on the path
   taken read as `0` (what the Cranelift frontend materialises for a variable
@@ -80,6 +81,7 @@ inductive Body where
   | add (a b : Body)
   | ite (c : Nat) (t e : Body)
   | loop (c : Nat) (b : Body)      -- runs `count c` times, the values are summed
+  | ret (r : Body)                 -- `return r`: the function ends with the value of `r`
   deriving Repr
 
 /-- the lowered body: the same structure, read sites resolved -/
@@ -89,16 +91,41 @@ inductive Code where
   | add (a b : Code)
   | ite (c : Nat) (t e : Code)
   | loop (c : Nat) (b : Code)
+  | ret (r : Code)
   deriving Repr
+
+/-- what evaluating (part of) a body comes to: a value, or the function returned -/
+inductive Out where
+  | val (n : Nat)
+  | ret (n : Nat)
+  deriving DecidableEq, Repr
+
+/-- `a + b`, left to right; a `return` in either operand ends the function -/
+def Out.add : Out → Out → Out
+  | .ret n, _ => .ret n
+  | .val _, .ret n => .ret n
+  | .val x, .val y => .val (x + y)
+
+/-- `return o` -/
+def Out.toRet : Out → Out
+  | .val n => .ret n
+  | .ret n => .ret n
+
+/-- `n` rounds of a body that comes to `o` every time, values summed -/
+def Out.times : Out → Nat → Out
+  | _, 0 => .val 0
+  | .ret n, _ + 1 => .ret n
+  | .val v, n + 1 => .val ((n + 1) * v)
 
 /-- what the property demands: every read site, on whatever path, is worth the
 one stored value of its constant -/
-def Body.spec (store : Nat → Nat) (cond : Nat → Bool) (count : Nat → Nat) : Body → Nat
-  | .lit n => n
-  | .read k => store k
-  | .add a b => a.spec store cond count + b.spec store cond count
+def Body.spec (store : Nat → Nat) (cond : Nat → Bool) (count : Nat → Nat) : Body → Out
+  | .lit n => .val n
+  | .read k => .val (store k)
+  | .add a b => (a.spec store cond count).add (b.spec store cond count)
   | .ite c t e => if cond c then t.spec store cond count else e.spec store cond count
-  | .loop c b => count c * b.spec store cond count
+  | .loop c b => (b.spec store cond count).times (count c)
+  | .ret r => (r.spec store cond count).toRet
 
 /-- lowering, in source order; `fresh` numbers the temporaries -/
 def lowerBody (acts : List MirReadAct) : Body → Nat → Option (Code × Nat)
@@ -115,6 +142,9 @@ def lowerBody (acts : List MirReadAct) : Body → Nat → Option (Code × Nat)
   | .loop c b, f => do
     let (cb, f) ← lowerBody acts b f
     pure (.loop c cb, f)
+  | .ret r, f => do
+    let (cr, f) ← lowerBody acts r f
+    pure (.ret cr, f)
 
 /-- temporaries: assigned values, most recent first; unassigned reads as 0 -/
 abbrev Temps := List (Nat × Nat)
@@ -129,24 +159,31 @@ def runSite (store : Nat → Nat) : Site → Temps → Nat × Temps
   | .viaTemp t k, T => (store k, (t, store k) :: T)
   | .reuse t, T => (T.get t, T)
 
-/-- `n` rounds of `step`, values summed -/
-def iter (step : Temps → Nat × Temps) : Nat → Temps → Nat × Temps
-  | 0, T => (0, T)
+/-- `n` rounds of `step`, values summed; a `return` in a round ends the function -/
+def iter (step : Temps → Out × Temps) : Nat → Temps → Out × Temps
+  | 0, T => (.val 0, T)
   | n + 1, T =>
-    let (v, T1) := step T
-    let (w, T2) := iter step n T1
-    (v + w, T2)
+    match step T with
+    | (.ret r, T1) => (.ret r, T1)
+    | (.val v, T1) =>
+      match iter step n T1 with
+      | (.ret r, T2) => (.ret r, T2)
+      | (.val w, T2) => (.val (v + w), T2)
 
 /-- running the lowered body on one call (one choice of conditions and counts) -/
-def Code.run (store : Nat → Nat) (cond : Nat → Bool) (count : Nat → Nat) : Code → Temps → Nat × Temps
-  | .lit n, T => (n, T)
-  | .site s, T => runSite store s T
+def Code.run (store : Nat → Nat) (cond : Nat → Bool) (count : Nat → Nat) : Code → Temps → Out × Temps
+  | .lit n, T => (.val n, T)
+  | .site s, T => ((.val (runSite store s T).1), (runSite store s T).2)
   | .add a b, T =>
-    let (v, T1) := a.run store cond count T
-    let (w, T2) := b.run store cond count T1
-    (v + w, T2)
+    match a.run store cond count T with
+    | (.ret r, T1) => (.ret r, T1)
+    | (.val v, T1) =>
+      match b.run store cond count T1 with
+      | (.ret r, T2) => (.ret r, T2)
+      | (.val w, T2) => (.val (v + w), T2)
   | .ite c t e, T => if cond c then t.run store cond count T else e.run store cond count T
   | .loop c b, T => iter (b.run store cond count) (count c) T
+  | .ret r, T => ((r.run store cond count T).1.toRet, (r.run store cond count T).2)
 
 end RotoV.Tarjan
 
@@ -159,6 +196,7 @@ def Body.sites (k : Nat) : Body → Nat
   | .add a b => a.sites k + b.sites k
   | .ite _ t e => t.sites k + e.sites k
   | .loop _ b => b.sites k
+  | .ret r => r.sites k
 
 /-- does the site read constant `k` from the store where it stands -/
 def Site.reads (k : Nat) : Site → Bool
@@ -174,5 +212,6 @@ def Code.storeReads (k : Nat) : Code → Nat
   | .add a b => a.storeReads k + b.storeReads k
   | .ite _ t e => t.storeReads k + e.storeReads k
   | .loop _ b => b.storeReads k
+  | .ret r => r.storeReads k
 
 end RotoV.Tarjan
